@@ -334,6 +334,77 @@ def shipped_plan_end_to_end(ck, rng):
             ck.violation("shipped-plan:%s:nspin=%d:mapped-model-differs-from-kernel-sum" % (mode, nspin), {"ladder(density,value,deriv)": errs})
 
 
+def _rbf_plan(dk):
+    """a module-level plan (the same callable object at every map, like a shipped kernel_plans module's mapping_plan)"""
+    return [RBFEvaluator(dk.kernel, dk.X1ctrl, dk.alpha)]
+
+
+def _arbf_plan(dk):
+    from ciderpress.models.kernel_plans import arbf_exchange
+    return quiet(arbf_exchange.mapping_plan, dk)
+
+
+def remap_histories(ck, rng):
+    """DFTKernel.map / DFTKernel2.map as a function of the MODEL AS IT IS NOW (spec/ValueSemantics.tla): TLC's witness histories
+    -- map, the trainer replaces or edits the weights of the same kernel object (what MOLGP.fit does at every re-fit), map
+    again WITH THE SAME PLAN CALLABLE, keep earlier mapped models -- are replayed on two live kernel objects per (class, plan);
+    after every map the mapped model's output is compared with the output of a FRESH kernel object carrying the current
+    weights, mapped by a fresh callable."""
+    import valuesem
+    from ciderpress.dft import baselines
+    from ciderpress.models.dft_kernel import DFTKernel, DFTKernel2
+    from ciderpress.models.kernel_plans import arbf_exchange
+    hists = valuesem.model_and_histories(ck, want=5)
+    fl = FeatureList([UMap(i, 0.3 + 0.1 * i) for i in range(1, 5)])
+    nctrl = 9
+    X1 = np.asfortranarray(rng.uniform(0.05, 0.95, size=(nctrl, fl.nfeat)))
+    X0T = rng.uniform(0.1, 2.0, size=(1, 5, 12))
+    values = {c: rng.normal(size=nctrl) * 0.2 for c in ("c1", "c2", "c3")}
+    akern = quiet(arbf_exchange.get_kernel, natural_scale=1.0, natural_lscale=np.array([0.4, 0.5, 0.6, 0.45]), scale_factor=0.8, lscale_factor=1.1)
+    rkern = quiet(get_rbf_kernel, slice(0, 4), np.array([0.4, 0.5, 0.6, 0.45]), scale=0.7)
+    for cname, cls, base in (("DFTKernel", DFTKernel, (baselines.lda_x, baselines.zero_xc)), ("DFTKernel2", DFTKernel2, ("LDA_X", None))):
+        for pname, kern, plan in (("rbf", rkern, _rbf_plan), ("arbf_exchange", akern, _arbf_plan)):
+            def make(alpha):
+                dk = cls(kern, fl, "SEP", base[0], base[1])
+                dk.X1ctrl = X1.copy(order="F")
+                dk.alpha = alpha
+                return dk
+
+            def evaluate(mk, cname=cname):
+                if cname == "DFTKernel2":          # its baseline needs libxc density tuples: compare the mapped function itself
+                    X1 = mk.get_descriptors(X0T.copy(), force_polarize=True)
+                    e, de = np.zeros(X1.shape[-2]), np.zeros_like(X1)
+                    for fe in mk.fevals:
+                        fe(X1, e, de)
+                    return e, de
+                e, de = mk(X0T.copy(), rhocut=1e-9)
+                return np.array(e, copy=True), np.array(de, copy=True)
+            for hi, hist in enumerate(hists):
+                ck.count(key=("remap", cname, pname, hi))
+                owner = {}
+
+                def call(arr):
+                    if id(arr) not in owner:              # the first map of this argument object: a live kernel that keeps THIS array
+                        owner[id(arr)] = make(arr)
+                    dk = owner[id(arr)]
+                    if dk.alpha is not arr:
+                        dk.alpha = arr
+                    return evaluate(dk.map(plan))
+
+                def fresh(arr):
+                    return evaluate(make(arr.copy()).map(lambda k_: plan(k_)))
+                try:
+                    bad = valuesem.replay(hist, values, call, valuesem.memo_fresh(fresh), tol=1e-11)
+                except Exception as ex:
+                    ck.violation("remap:%s:%s:%s" % (cname, pname, type(ex).__name__), {"history": hist, "msg": str(ex)[:200]})
+                    break
+                if bad:
+                    ck.violation("remap:%s:%s:%s" % (cname, pname, bad[0][0]),
+                                 {"history": hist, "step": bad[0][1], "op": bad[0][2],
+                                  "meaning": "the mapped model does not equal the kernel sum of the model it was mapped from (weights changed between two maps of the same object with the same plan)"})
+                    break
+
+
 def k0_factor(ck, rng):
     """the per-dimension factor used for mapping equals the factor the kernel itself uses"""
     nd = 3
@@ -398,6 +469,7 @@ def main():
         additive_case(ck, rng, model_terms, ns, na, order, kind, (8, 16, 32) if ns + order <= 3 else (8, 16), layout=lay)
     simple_and_linear(ck, rng)
     shipped_plan_end_to_end(ck, rng)
+    remap_histories(ck, rng)
     k0_factor(ck, rng)
     ck.traces = len(cases)
     ck.sample({"case(ns,na,order,kind)": cases[3], "model_terms": model_terms[(cases[3][0], cases[3][1], cases[3][2], "front")][0]})
